@@ -7,6 +7,8 @@ CONSTANTS
   Vals = {0}
   MaxS = 1
   SVals = {0}
+  MaxSteps = 1
+  StepVals = {0}
   Variant = "axis0"
 POSTCONDITION Post
 CHECK_DEADLOCK FALSE
